@@ -1,0 +1,156 @@
+//go:build verif
+
+package json
+
+// Verification hooks (build tag "verif"). Nothing here is compiled into a
+// normal build. Two services for the external verification harness:
+//
+//   - VerifScanTable dumps the scanner's transition function on its whole
+//     finite control space, so that a formal model of the scanner can be
+//     compared with it exhaustively;
+//   - VerifPoisonPools fills the package's sync.Pools with states holding
+//     adversarial leftovers, to exercise history independence.
+
+import (
+	"errors"
+	"fmt"
+	"io"
+	"reflect"
+	"runtime"
+	"strings"
+)
+
+var verifStates = []func(*scanner, byte) int{
+	stateBeginValueOrEmpty, stateBeginValue, stateBeginStringOrEmpty, stateBeginString,
+	stateEndValue, stateEndTop, stateInString, stateInStringEsc, stateInStringEscU,
+	stateInStringEscU1, stateInStringEscU12, stateInStringEscU123, stateNeg, state1, state0,
+	stateDot, stateDot0, stateE, stateESign, stateE0, stateT, stateTr, stateTru, stateF,
+	stateFa, stateFal, stateFals, stateN, stateNu, stateNul, stateError,
+}
+
+func verifStateName(f func(*scanner, byte) int) string {
+	if f == nil {
+		return "nil"
+	}
+	n := runtime.FuncForPC(reflect.ValueOf(f).Pointer()).Name()
+	if i := strings.LastIndex(n, "."); i >= 0 {
+		n = n[i+1:]
+	}
+	return n
+}
+
+func verifStackString(ps []int) string {
+	if len(ps) > 8 {
+		return fmt.Sprintf("n%d:%d", len(ps), ps[len(ps)-1])
+	}
+	var sb strings.Builder
+	sb.WriteByte('s')
+	for _, p := range ps {
+		sb.WriteByte(byte('0' + p))
+	}
+	return sb.String()
+}
+
+// VerifMaxNestingDepth exposes the constant to the harness.
+const VerifMaxNestingDepth = maxNestingDepth
+
+// VerifScanTable writes one line per (state, stack, byte):
+//
+//	SCAN <state> <stack> <byte> => <next> <opcode> <stack'> <endTop> <err>
+//
+// Stacks: every stack of length <= 2 over {0,1,2} plus two deep stacks of
+// array entries at the nesting limit. A step that panics (a combination the
+// scanner never reaches) is reported as "panic".
+func VerifScanTable(w io.Writer) {
+	var stacks [][]int
+	stacks = append(stacks, []int{})
+	for a := 0; a < 3; a++ {
+		stacks = append(stacks, []int{a})
+	}
+	for a := 0; a < 3; a++ {
+		for b := 0; b < 3; b++ {
+			stacks = append(stacks, []int{a, b})
+		}
+	}
+	for _, n := range []int{maxNestingDepth - 1, maxNestingDepth} {
+		for top := 0; top < 3; top++ {
+			deep := make([]int, n)
+			for i := range deep {
+				deep[i] = parseArrayValue
+			}
+			deep[n-1] = top
+			stacks = append(stacks, deep)
+		}
+	}
+	for _, st := range verifStates {
+		for _, stack := range stacks {
+			for c := 0; c < 256; c++ {
+				s := &scanner{}
+				s.step = st
+				s.parseState = append([]int(nil), stack...)
+				res := func() (out string) {
+					defer func() {
+						if r := recover(); r != nil {
+							out = "panic"
+						}
+					}()
+					op := st(s, byte(c))
+					e := 0
+					if s.err != nil {
+						e = 1
+					}
+					et := 0
+					if s.endTop {
+						et = 1
+					}
+					return fmt.Sprintf("%s %d %s %d %d", verifStateName(s.step), op, verifStackString(s.parseState), et, e)
+				}()
+				fmt.Fprintf(w, "SCAN %s %s %d => %s\n", verifStateName(st), verifStackString(stack), c, res)
+			}
+		}
+	}
+}
+
+// VerifPoisonPools puts n dirty states into each pool. The leftovers are of
+// the kind the package itself can leave behind (stale key lists, saved
+// errors, error context, non-empty buffers, scanner stacks and error state);
+// fields the package never dirties (disallowUnknownFields, ptrSeen) stay clean.
+func VerifPoisonPools(n int, seed uint64) {
+	next := func() uint64 {
+		seed += 0x9e3779b97f4a7c15
+		z := seed
+		z = (z ^ (z >> 30)) * 0xbf58476d1ce4e5b9
+		z = (z ^ (z >> 27)) * 0x94d049bb133111eb
+		return z ^ (z >> 31)
+	}
+	junk := []byte(`{"stale":[1,2,{"x":null}],"k":"v"} trailing`)
+	for i := 0; i < n; i++ {
+		d := new(decodeState)
+		d.data = junk
+		d.off = int(next() % uint64(len(junk)))
+		d.opcode = int(next() % 12)
+		d.savedError = errors.New("verif: stale saved error")
+		d.errorContext = &errorContext{Struct: reflect.TypeOf(struct{ A int }{}), FieldStack: []string{"stale", "field"}}
+		d.useNumber = next()%2 == 0
+		d.lastKeys = []string{"stale1", "stale2", "stale1"}
+		d.scan.step = verifStates[next()%uint64(len(verifStates))]
+		d.scan.parseState = []int{2, 0, 1, 2, 2}[:next()%6]
+		d.scan.err = &SyntaxError{"verif: stale", 7}
+		d.scan.endTop = next()%2 == 0
+		d.scan.bytes = int64(next() % 1000)
+		ds.Put(d)
+
+		e := &encodeState{ptrSeen: make(map[any]struct{})}
+		e.WriteString(`{"stale":"buffer contents <>&"}`)
+		e.ptrLevel = uint(next() % 2000)
+		encodeStatePool.Put(e)
+
+		s := &scanner{}
+		s.step = verifStates[next()%uint64(len(verifStates))]
+		s.parseState = []int{0, 1, 2, 2, 1}[:next()%6]
+		s.err = &SyntaxError{"verif: stale", 3}
+		s.endTop = next()%2 == 0
+		s.bytes = int64(next() % 1000)
+		scannerPool.Put(s)
+	}
+}
